@@ -93,6 +93,9 @@ def gen(rng: Any, tier: str, i: int) -> Any:
     if case["timeout"] != 5.0:
         # a reply shortly before a timeout that has a fractional part (or is below one second) is a success
         case["latency"] = rng.choice([0.0, 0.8 * case["timeout"], 0.96 * case["timeout"]])
+    if rng.random() < 0.1:
+        # one inverter does not report its lower bound (NaN in the data message)
+        case["nan_bound"] = rng.randrange(n)
     if n >= 2 and rng.random() < 0.4:
         # two requests for disjoint inverter subsets in flight at the same time (the distributor processes
         # disjoint component groups concurrently)
@@ -181,8 +184,9 @@ async def _pv_run(case: dict[str, Any], vec: list[str], out: dict[str, Any]) -> 
     mgr = PVManager(status_ch.new_sender(), res_ch.new_sender(), timedelta(seconds=case.get("timeout", TIMEOUT)))
     await mgr.start()
     now = datetime.now(timezone.utc)
-    for inv in case["invs"]:
-        await api.feed(inv["id"], batdata.mk_inverter(inv["id"], {"il": inv["il"], "el": 0.0, "eu": 0.0, "iu": 0.0}, now))
+    for j, inv in enumerate(case["invs"]):
+        il = float("nan") if case.get("nan_bound") == j else inv["il"]
+        await api.feed(inv["id"], batdata.mk_inverter(inv["id"], {"il": il, "el": 0.0, "eu": 0.0, "iu": 0.0}, now))
     await asyncio.sleep(0.5)
     conc = case.get("concurrent")
     if conc:
@@ -255,6 +259,11 @@ def _judge(case: dict[str, Any], vec: list[str], rnd: dict[str, Any], rec: Any, 
     scomp = set(res.succeeded_components)
     w.update({"succeeded_power": succ, "failed_power": failed, "excess_power": exc,
               "succeeded_components": sorted(scomp), "failed_components": sorted(fcomp)})
+    import math
+
+    if not all(math.isfinite(x) for x in (succ, failed, exc)) or not all(math.isfinite(c["watts"]) for c in calls):
+        rec.violation("non-finite-power-in-result-or-set-point", w)
+        return
     if abs(exc) > t:
         rec.bucket("excess-nonzero")
     if abs(succ + failed + exc - p) > t:
@@ -297,6 +306,8 @@ def check(case: dict[str, Any], rec: Any) -> None:
     import random
 
     rec.bucket(case["kind"])
+    if case.get("nan_bound") is not None:
+        rec.bucket("pv-inverter-without-a-reported-bound")
     if case.get("unusable") is not None:
         rec.bucket("unusable-battery-group-requested")
     if case.get("lat_vec") and len(set(case["lat_vec"])) > 1:
